@@ -297,7 +297,7 @@ def evaluate(case):
     for mn_full, op_full in FLAGS:
         ref = Ref(NV, mn_full, op_full)
         spans = ref.spans(pattern)
-        exp = bool(spans)
+        exp = any(j_ > i_ for i_, e_ in spans.items() for j_ in e_)
         verdicts.append(exp)
         if case.get("false_as_absent"):
             # a flag that is false may equally be left out of the config (its default)
